@@ -9,8 +9,8 @@ fsic.tools.symbols_to_graph in insertion order, and — on the model built by fs
 an isolated execution of its generated code on random data: which (series, offset) perturbations change the assigned
 value, and which cells the recording arrays saw read.
 K  = extracted Graph.symbols_to_graph_M on the same Symbol list vs the real graph (nodes, attributes, edges, order), and the
-     domain of theorem graph_exact: every real normalised equation, re-tokenised, passes the extracted GNorm.neq_wf and
-     GNorm.neq_text reproduces it character by character.
+     domain of the theorems: the extracted GTokenise.tokenise (the model's own, proved sound and complete reader of well-formed
+     normalised equations) accepts every real normalised equation of the generated grammar.
 O  = the property's statement on the real observations (see `oracle`)."""
 import json
 import re
@@ -23,7 +23,7 @@ PROPS_FILE = 'Props/C20.v'
 MODEL_FILES = ['Parser/PyStr.v', 'Parser/Lex.v', 'Parser/Symbols.v', 'Parser/ParseEq.v', 'Parser/ParseModel.v', 'Graph/GLex.v', 'Graph/GNorm.v',
                'Graph/Graph.v', 'Extract/Graph/ExtractGraph.v']
 K_NAME = ('K_graph (extracted Graph.symbols_to_graph_M on the real Symbol list vs fsic.tools.symbols_to_graph: nodes, equation attributes, '
-          'edges, insertion order) + K_domain (extracted GNorm.neq_wf / neq_text accept and reproduce every real normalised equation)')
+          'edges, insertion order) + K_domain (extracted GTokenise.tokenise accepts every real normalised equation of the generated grammar)')
 RULE = ('fixed corpus (traps: names with keyword prefixes, a name used as variable and function, quoted / backticked period indexes, '
         'verbatim fragments, conditionals, self reference, lead on the left-hand side); programs of 1-4 equations rendered from random '
         'syntax trees (variables / {parameters} / <errors> with offsets in -3..3 and named periods, + - * / ** unary minus, '
@@ -33,12 +33,12 @@ RULE = ('fixed corpus (traps: names with keyword prefixes, a name used as variab
         'extracted model; every equation executed in isolation on 3 random data vectors with recording arrays, and once more per '
         '(series, offset) of the model with that cell perturbed.  Non-trivial = accepted, at least one equation with a variable-like '
         'in-edge; distinct by hash of the case.')
-TRUSTED = ['extraction of Graph.symbols_to_graph_M / GNorm.neq_wf / neq_text to OCaml (ExtrOcamlBasic + ExtrOcamlString only) and coq/Extract/Graph/driver.ml',
+TRUSTED = ['extraction of Graph.symbols_to_graph_M / Graph.nx_edges / GTokenise.tokenise to OCaml (ExtrOcamlBasic + ExtrOcamlString only) and coq/Extract/Graph/driver.ml',
            'harness/parser_common.py encoders; harness/evalmodel.py recording ndarray',
            "CPython's exec of one generated statement as 'an isolated evaluation of the equation'; networkx DiGraph node / edge iteration order"]
 ASSUMPTIONS = ['input strings are Latin-1',
                'theorems speak about normalised equations given as token lists (GNorm.neq); that the equations fsic produces are such '
-               'texts is checked per case by K_domain (re-tokenised witness accepted by the extracted neq_wf, text reproduced exactly); it is '
+               'texts is checked per case by K_domain (the extracted GTokenise.tokenise — proved sound and complete for neq_wf — accepts the real equation); it is '
                'proved inside the model for statements written in de-normalised form (C20_reparsed_graph), for whole scripts of such '
                'statements through splitter, per-statement parse and cross-equation merge (C20_script_graph_edges), and for the renderings '
                'of all Eval statements (C20_rendered_statements_wf)',
@@ -164,7 +164,7 @@ def gen_tree(rng, names, depth=0):
         if rng.random() < 0.06:
             idx = rng.choice(PERIODS)
         else:
-            idx = rng.choice([0, 0, 0, 0, -1, -1, -2, 1, 1, 2, -3, 3])
+            idx = rng.choice([0, 0, 0, 0, -1, -1, -2, 1, 1, 2, -3, 3]) if rng.random() < 0.97 else rng.choice([-10, 12, -12, 10])
         return ['var', kind, nm, idx]
     if r < 0.5:
         return ['num', rng.choice(NUMS)]
@@ -373,45 +373,6 @@ def gen(rng, tier):
 
 
 # --------------------------------------------------------------------------- observation (worker; real fsic)
-def _witness(eq):
-    """the normalised equation split into the tokens of GNorm.ntok (an untrusted proposal: the extracted neq_wf / neq_text judge it)"""
-    import fsic
-    if '=' not in eq:
-        return None
-    out = []
-    for side in eq.split('=', 1):
-        toks, pos = [], 0
-        for m in fsic.parser.term_re.finditer(side):
-            toks += ['C%02x' % ord(c) for c in side[pos:m.start()]]
-            pos = m.end()
-            g = m.lastgroup if m.lastgroup != 'INDEX' else None
-            gd = m.groupdict()
-            kind = [k for k in ('_VERBATIM', '_INVALID', '_KEYWORD', '_FUNCTION', '_PARAMETER', '_ERROR', '_VARIABLE') if gd.get(k) is not None]
-            if len(kind) != 1:
-                return None
-            kind = kind[0]
-            if kind == '_VARIABLE' and gd['INDEX'] is not None:
-                idx = gd['INDEX']
-                mm = re.fullmatch(r't([+-][0-9]+)?', idx)
-                if mm:
-                    toks.append('T%s:i%d' % (pc.hx(gd[kind]), int(mm.group(1) or 0)))
-                else:
-                    raw = m.group(0)[len(gd[kind]) + 1:-1]      # the text between the brackets as it stands (blanks included)
-                    toks.append('T%s:s%s' % (pc.hx(gd[kind]), pc.hx(raw)))
-            elif kind == '_FUNCTION':
-                toks.append('F' + pc.hx(m.group(0)))
-            elif kind == '_KEYWORD':
-                toks.append('K' + pc.hx(gd[kind]))
-            elif kind == '_VERBATIM':
-                toks.append('V' + pc.hx(m.group(0)[1:-1]))
-            else:
-                return None
-            del g
-        toks += ['C%02x' % ord(c) for c in side[pos:]]
-        out.append(','.join(toks) if toks else '.')
-    return out[0] + ' / ' + out[1]
-
-
 class _NoAssignment(Exception):
     pass
 
@@ -518,7 +479,6 @@ def impl(case):
     out['extra_attrs'] = sorted({k for _n, d in G.nodes(data=True) for k in d if k != 'equation'})
     out['edges'] = [[a, b] for a, b in G.edges()]
     out['eqs'] = [[x.name, x.equation] for x in symbols if x.type.name == 'ENDOGENOUS']
-    out['wit'] = [_witness(x.equation) for x in symbols if x.equation is not None and x.type.name == 'ENDOGENOUS']
     try:
         out['iso'] = _isolated(symbols, case.get('seed', 0))
     except BaseException as e:      # noqa: BLE001
@@ -556,11 +516,9 @@ def correspond(cases, obs, tag, tier):
         if o['graph'] != 'ok':
             continue
         eqs = [e for _n, e in o['eqs'] if e is not None]
-        for e, w in zip(eqs, o.get('wit', [])):
+        for e in eqs:
             _K_STATS['equations'] += 1
-            if w is None:
-                continue
-            reqs.append('W %s %s' % (pc.hx(e), w))
+            reqs.append('Z ' + pc.hx(e))            # the model's own reader GTokenise.tokenise (sound and complete for neq_wf)
             where.append(i)
     ans, errs = run_driver(reqs)
     if errs:
@@ -568,15 +526,11 @@ def correspond(cases, obs, tag, tier):
     for i, a, r in zip(where, ans, reqs):
         if a == '1':
             _K_STATS['in_domain'] += 1
-        elif a == '0t':          # a well-formed token list whose text is not the equation: the witness maker and the model disagree on the text
-            if i not in bad:
-                bad.append(i)
-                _K_DETAIL[lib.jhash(cases[i])] = {'neq_text differs for': r[:300]}
         elif cases[i]['k'] == 'prog' and not cases[i]['flags']:
             # an equation of the generated grammar that the theorems' hypothesis does not cover
             if i not in bad:
                 bad.append(i)
-                _K_DETAIL[lib.jhash(cases[i])] = {'neq_wf false for': r[:300]}
+                _K_DETAIL[lib.jhash(cases[i])] = {'GTokenise.tokenise rejects the real equation': pc.unhx(r[2:])[:300]}
     return sorted(set(bad)), errors
 
 
